@@ -12,7 +12,7 @@
 From Coq Require Import List NArith.
 From Muscle Require Import Msg.MsgDefs Msg.MsgModel Msg.MsgApi Msg.MsgBytesProofs Msg.MsgSizeProofs
   Msg.MsgRoundTrip Msg.MsgReprProofs Msg.MsgApiProofs Msg.MsgEqProofs Msg.MsgFuelProofs Msg.MsgExamples
-  Msg.TmplModel Msg.TmplProofs.
+  Msg.TmplModel Msg.TmplProofs Msg.TmplHashProofs Msg.TmplMergeProofs.
 Local Open Scope N_scope.
 
 (* 1. the advertised flattened size is the number of bytes written *)
@@ -135,6 +135,69 @@ Print Assumptions C01_tmpl_roundtrip_created.
 Theorem C01_api_reachable_nz : forall ops : list mop, Forall op_nz ops -> nz_msg (run ops empty_msg).
 Proof. exact api_reachable_nz. Qed.
 Print Assumptions C01_api_reachable_nz.
+
+(* 8e. TemplateHashCode64 (the key of MessageIOGateway's template cache) is a function of the shape, whatever the
+   64-bit string hash is: same shape, same hash; in particular a Message and the template made for it *)
+Theorem C01_same_shape_same_hash : forall (h64 : bytes -> N) (t p : msg),
+  same_shape t p = true -> tmpl_hash h64 t = tmpl_hash h64 p.
+Proof. exact same_shape_same_hash. Qed.
+Print Assumptions C01_same_shape_same_hash.
+
+Theorem C01_created_template_hash : forall (h64 : bytes -> N) (p : msg),
+  wf_msg p -> nz_msg p -> tmpl_hash h64 (tmpl_of_msg p) = tmpl_hash h64 p.
+Proof. exact created_template_hash. Qed.
+Print Assumptions C01_created_template_hash.
+
+(* ... and the converse is false for every string hash: two well-formed Messages of different shapes with the same
+   TemplateHashCode64 (the shape pair of finding F54) *)
+Theorem C01_tmpl_hash_not_injective : forall (h64 : bytes -> N),
+  wf_msg coll_1 /\ wf_msg coll_2 /\ nz_msg coll_1 /\ nz_msg coll_2 /\
+  same_shape coll_1 coll_2 = false /\ same_shape coll_2 coll_1 = false /\
+  tmpl_hash h64 coll_1 = tmpl_hash h64 coll_2.
+Proof. exact hash_collision. Qed.
+Print Assumptions C01_tmpl_hash_not_injective.
+
+(* the templated codec for ANY template (fields non-empty) and ANY payload: the bytes are those of the payload merged
+   into the template (the template's fields in the template's order; the payload's items where it has the field with
+   the same type code, cut or padded with the template's items to the template's count), the merge has the template's
+   shape, the size is exact and TemplatedUnflatten gives the merge back *)
+Theorem C01_tmpl_merge_ok : forall t p : msg,
+  wf_msg t -> nz_msg t -> wf_msg p ->
+  wf_msg (tmpl_merge t p) /\ same_shape t (tmpl_merge t p) = true /\
+  tmpl_flatten t (tmpl_merge t p) = tmpl_flatten t p /\
+  tmpl_flattened_size t (tmpl_merge t p) = tmpl_flattened_size t p.
+Proof. exact tmpl_merge_ok. Qed.
+Print Assumptions C01_tmpl_merge_ok.
+
+Theorem C01_tmpl_roundtrip_any : forall t p : msg,
+  wf_msg t -> nz_msg t -> wf_msg p -> tmpl_flattened_size t p < two32 ->
+  exists b, tmpl_flatten t p = Some b /\ len b = tmpl_flattened_size t p /\
+            tmpl_unflatten t b = Ok (rt (tmpl_merge t p)).
+Proof. exact tmpl_roundtrip_any. Qed.
+Print Assumptions C01_tmpl_roundtrip_any.
+
+Theorem C01_tmpl_merge_same_shape : forall t p : msg,
+  wf_msg t -> nz_msg t -> wf_msg p -> same_shape t p = true -> tmpl_flattened_size t p < two32 ->
+  rt (tmpl_merge t p) = rt p.
+Proof. exact tmpl_merge_same_shape. Qed.
+Print Assumptions C01_tmpl_merge_same_shape.
+
+(* non-vacuity on the case the C++ got wrong: payload {a:["hi"]} against template {a:["qqqqq","x"]} *)
+Theorem C01_tmpl_fewer_example :
+  wf_msg fewer_t /\ nz_msg fewer_t /\ wf_msg fewer_p /\ same_shape fewer_t fewer_p = false /\
+  tmpl_flattened_size fewer_t fewer_p = 21 /\
+  tmpl_flatten fewer_t fewer_p =
+    Some (cons Coq.Init.Byte.x00 (cons Coq.Init.Byte.x00 (cons Coq.Init.Byte.x00 (cons Coq.Init.Byte.x00
+         (cons Coq.Init.Byte.x02 (cons Coq.Init.Byte.x00 (cons Coq.Init.Byte.x00 (cons Coq.Init.Byte.x00
+         (cons Coq.Init.Byte.x03 (cons Coq.Init.Byte.x00 (cons Coq.Init.Byte.x00 (cons Coq.Init.Byte.x00
+         (cons Coq.Init.Byte.x68 (cons Coq.Init.Byte.x69 (cons Coq.Init.Byte.x00
+         (cons Coq.Init.Byte.x02 (cons Coq.Init.Byte.x00 (cons Coq.Init.Byte.x00 (cons Coq.Init.Byte.x00
+         (cons Coq.Init.Byte.x78 (cons Coq.Init.Byte.x00 nil))))))))))))))))))))) /\
+  tmpl_merge fewer_t fewer_p =
+    Msg 0 (FCons (cons Coq.Init.Byte.x61 nil) Gen.Consts.c_B_STRING_TYPE
+            (RArray (ICons (IStr (cons Coq.Init.Byte.x68 (cons Coq.Init.Byte.x69 nil))) (ICons (IStr (cons Coq.Init.Byte.x78 nil)) INil))) FNil).
+Proof. exact ex_fewer. Qed.
+Print Assumptions C01_tmpl_fewer_example.
 
 (* 9. the domain boundary F9: a String with an embedded NUL is outside wf and does come back truncated *)
 Theorem C01_nul_string_truncates :
